@@ -76,6 +76,17 @@ func c07Place(kind, name, placement string, variant int) *eng.Res {
 	return &eng.Res{Kind: kind, Name: name, Fields: f}
 }
 
+// a resource of a DIFFERENT kind with the same name (same apiVersion v1, same namespace)
+func c07Twin(kind, name string) eng.Res {
+	switch kind {
+	case "ConfigMap":
+		return eng.Res{Kind: "Secret", Name: name, Fields: map[string]string{"d:p": "dHdpbg=="}}
+	case "Secret":
+		return eng.Res{Kind: "ServiceAccount", Name: name, Fields: map[string]string{"l:twin": "1"}}
+	}
+	return eng.Res{Kind: "ConfigMap", Name: name, Fields: map[string]string{"d:k": "twin"}}
+}
+
 func c07Bystanders() []eng.Res {
 	return []eng.Res{
 		{Kind: "ConfigMap", Name: "bystander", Fields: map[string]string{"d:k": "mine"}},
@@ -115,6 +126,18 @@ func c07Build(backend, scenario string, idx []int, place []string, variant int, 
 		h.Steps = []eng.Step{
 			{Op: &eng.Op{Kind: "install", ChartID: 1, ValsID: 1, Manifest: []eng.Res{base}}},
 			{Op: &eng.Op{Kind: "upgrade", Flags: fl, ChartID: 2, ValsID: 1, Manifest: append([]eng.Res{base2}, newRes...), Hooks: hooks}}}
+	case "upgrade-add-twin":
+		// the release already owns, for every added resource, a resource of another kind with the
+		// SAME name (seeded defect C07-2: the to-be-created diff must compare kinds too)
+		var twins []eng.Res
+		for _, ix := range idx {
+			p := c07Pool[ix%len(c07Pool)]
+			twins = append(twins, c07Twin(p.Kind, p.Name))
+		}
+		h.Init = append(h.Init, placed...)
+		h.Steps = []eng.Step{
+			{Op: &eng.Op{Kind: "install", ChartID: 1, ValsID: 1, Manifest: append([]eng.Res{base}, twins...)}},
+			{Op: &eng.Op{Kind: "upgrade", Flags: fl, ChartID: 2, ValsID: 1, Manifest: append(append([]eng.Res{base2}, twins...), newRes...), Hooks: hooks}}}
 	case "replace":
 		fl.Replace = true
 		h.Steps = []eng.Step{
@@ -136,15 +159,17 @@ func c07Build(backend, scenario string, idx []int, place []string, variant int, 
 	return c
 }
 
-var c07Scenarios = []string{"install", "upgrade-add", "replace", "rollback-recreate"}
+var c07Scenarios = []string{"install", "upgrade-add", "replace", "rollback-recreate", "upgrade-add-twin"}
 
 func c07Gen(r *rand.Rand) c07Case {
 	k := r.Intn(10)
 	sc := "install"
 	switch {
 	case k < 3:
-	case k < 6:
+	case k < 5:
 		sc = "upgrade-add"
+	case k < 6:
+		sc = "upgrade-add-twin"
 	case k < 8:
 		sc = "replace"
 	default:
@@ -208,7 +233,7 @@ func (*c07) Exhaustive(tier string) []any {
 			return
 		}
 		if len(place) == n-1 {
-			emit(place, c07Scenarios[3:])
+			emit(place, c07Scenarios[3:]) // rollback-recreate, upgrade-add-twin
 		}
 		for _, p := range c07Placements {
 			rec(append(place, p))
